@@ -767,7 +767,9 @@ def gen(rng, n):
         else:
             m = rng.randint(1, 6)
             t0 = rng.randint(0, 8)
-            states = [gen_state(rng, goals, cls, t0 + j) for j in range(m)]
+            # the time steps of a trajectory increase; they need not be consecutive (seed C08-15)
+            step = rng.choice([1, 1, 1, 2, 3])
+            states = [gen_state(rng, goals, cls, t0 + j * step) for j in range(m)]
             if cls in ("MBState", "CustomState"):  # a trajectory needs states with the same attribute set
                 keys = set(k for k in ("orient", "vel", "vely") if states[0].get(k) is not None)
                 for s in states[1:]:
